@@ -30,33 +30,51 @@ IsRat(q)   == /\ q \in Int \X Int
               /\ (q[1] = 0 => q[2] = 1)
               /\ (q[1] # 0 => GCD(IAbs(q[1]), q[2]) = 1)
 
+\* NaR ("not a rational", the pair <<0, 0>>) plays the role of NaN: an observation that could
+\* not be lifted, or an intermediate result that would leave TLC's 32-bit integers.  It
+\* propagates through the arithmetic, is unequal to every rational, and every comparison
+\* with it is FALSE - so no predicate can be satisfied by accident and TLC never aborts
+\* with an overflow error.
+NaR        == <<0, 0>>
+IsNaR(a)   == a[2] = 0
+MaxInt     == 2147483647
+MulOK(x, y) == x = 0 \/ y = 0 \/ IAbs(x) <= MaxInt \div IAbs(y)
+AddOK(x, y) == IF x >= 0 /\ y >= 0 THEN x <= MaxInt - y
+               ELSE IF x < 0 /\ y < 0 THEN x >= (-MaxInt) - y ELSE TRUE
+
 RNeg(a)    == <<-a[1], a[2]>>
 \* cross-cancelling keeps intermediate products small
-RAdd(a, b) == IF a[1] = 0 THEN b ELSE IF b[1] = 0 THEN a ELSE
+RAdd(a, b) == IF IsNaR(a) \/ IsNaR(b) THEN NaR
+              ELSE IF a[1] = 0 THEN b ELSE IF b[1] = 0 THEN a ELSE
               LET g == GCD(a[2], b[2])
                   bd == b[2] \div g
                   ad == a[2] \div g
-              IN  Norm(a[1] * bd + b[1] * ad, a[2] * bd)
+              IN  IF MulOK(a[1], bd) /\ MulOK(b[1], ad) /\ MulOK(a[2], bd)
+                     /\ AddOK(a[1] * bd, b[1] * ad)
+                  THEN Norm(a[1] * bd + b[1] * ad, a[2] * bd) ELSE NaR
 RSub(a, b) == RAdd(a, RNeg(b))
-RMul(a, b) == IF a[1] = 0 \/ b[1] = 0 THEN RZero ELSE
+RMul(a, b) == IF IsNaR(a) \/ IsNaR(b) THEN NaR
+              ELSE IF a[1] = 0 \/ b[1] = 0 THEN RZero ELSE
               LET g1 == GCD(IAbs(a[1]), b[2])
                   g2 == GCD(IAbs(b[1]), a[2])
-              IN  <<(a[1] \div g1) * (b[1] \div g2), (a[2] \div g2) * (b[2] \div g1)>>
-RInv(a)    == IF a[1] > 0 THEN <<a[2], a[1]>> ELSE <<-a[2], -a[1]>>   \* a # 0
-RDiv(a, b) == RMul(a, RInv(b))                                         \* b # 0
+                  n1 == a[1] \div g1   n2 == b[1] \div g2
+                  d1 == a[2] \div g2   d2 == b[2] \div g1
+              IN  IF MulOK(n1, n2) /\ MulOK(d1, d2) THEN <<n1 * n2, d1 * d2>> ELSE NaR
+RInv(a)    == IF a[1] > 0 THEN <<a[2], a[1]>> ELSE IF a[1] < 0 THEN <<-a[2], -a[1]>> ELSE NaR
+RDiv(a, b) == RMul(a, RInv(b))
 RSq(a)     == RMul(a, a)
 RCube(a)   == RMul(a, RMul(a, a))
 
 RSign(a)   == IF a[1] > 0 THEN 1 ELSE IF a[1] < 0 THEN -1 ELSE 0
-RIsZero(a) == a[1] = 0
+RIsZero(a) == a[1] = 0 /\ a[2] # 0
 RPos(a)    == a[1] > 0
 RNegv(a)   == a[1] < 0
-RLt(a, b)  == a[1] * b[2] < b[1] * a[2]
-RLe(a, b)  == a[1] * b[2] <= b[1] * a[2]
+RLt(a, b)  == LET d == RSub(b, a) IN ~IsNaR(d) /\ d[1] > 0
+RLe(a, b)  == LET d == RSub(b, a) IN ~IsNaR(d) /\ d[1] >= 0
 RGt(a, b)  == RLt(b, a)
 RGe(a, b)  == RLe(b, a)
-RMin(a, b) == IF RLe(a, b) THEN a ELSE b
-RMax(a, b) == IF RLe(a, b) THEN b ELSE a
+RMin(a, b) == IF IsNaR(a) \/ IsNaR(b) THEN NaR ELSE IF RLe(a, b) THEN a ELSE b
+RMax(a, b) == IF IsNaR(a) \/ IsNaR(b) THEN NaR ELSE IF RLe(a, b) THEN b ELSE a
 RAbs(a)    == <<IAbs(a[1]), a[2]>>
 
 RECURSIVE RPow(_, _)
